@@ -90,6 +90,7 @@ fn worker(args: &[String]) -> i32 {
         }
         let run_index = start + k * stride;
         k += 1;
+        history::HEARTBEAT.store(true, std::sync::atomic::Ordering::Relaxed);
         let mut header = checks::make_header(&prop, &profile, seed, run_index);
         if thorough {
             header.params.insert("thorough".into(), 1);
